@@ -44,13 +44,71 @@ proof fn lemma_cyc_mod(n: int, u: int)
     }
 }
 
+// ---- wheel: defining predicates written from the property text, exactly as in units/inc/map_more.inc.rs ----
+
+/// star(n) has 0 <-> i for 1 <= i < n
+spec fn star_arc(n: int, a: int, b: int) -> bool {
+    (a == 0 && 1 <= b < n) || (b == 0 && 1 <= a < n)
+}
+/// the cycle through 1..n-1: cycle(n-1) on the vertices 1, .., n-1
+spec fn rim_arc(n: int, a: int, b: int) -> bool {
+    1 <= a < n && 1 <= b < n && cycle_arc(n - 1, a - 1, b - 1)
+}
+/// wheel(n >= 4) is the union of star(n) and the cycle through 1..n-1
+spec fn wheel_arc(n: int, a: int, b: int) -> bool {
+    star_arc(n, a, b) || rim_arc(n, a, b)
+}
+
+/// predecessor / successor of a on the rim 1..n-1, without `%`
+spec fn rim_prev(n: int, a: int) -> int { if a == 1 { n - 1 } else { a - 1 } }
+spec fn rim_next(n: int, a: int) -> int { if a == n - 1 { 1 } else { a + 1 } }
+
+/// `%`-free form of wheel_arc, by tail a: the hub's row is 1..n-1, a rim vertex has the hub and its two rim neighbours
+spec fn wheel_lin(n: int, a: int, b: int) -> bool {
+    (a == 0 && 1 <= b < n) || (1 <= a < n && (b == 0 || b == rim_prev(n, a) || b == rim_next(n, a)))
+}
+spec fn wheel_lin_ok(n: int) -> bool {
+    forall|a: int, b: int| #[trigger] wheel_arc(n, a, b) == wheel_lin(n, a, b)
+}
+proof fn lemma_wheel_lin(n: int)
+    requires n >= 4,
+    ensures wheel_lin_ok(n),
+{
+    lemma_cyc_lin(n - 1);
+    assert forall|a: int, b: int| #[trigger] wheel_arc(n, a, b) == wheel_lin(n, a, b) by {
+        assert(cycle_arc(n - 1, a - 1, b - 1) == cyc_lin(n - 1, a - 1, b - 1));
+    }
+}
+
+/// sanity of the predicates on small instances (guards against a mis-stated predicate)
+proof fn lemma_gen3_predicate_examples()
+    ensures
+        wheel_arc(4, 0, 3) && wheel_arc(4, 1, 2) && wheel_arc(4, 2, 3) && wheel_arc(4, 3, 1) && wheel_arc(4, 1, 3) && wheel_arc(4, 2, 0) && !wheel_arc(4, 1, 1) && !wheel_arc(4, 0, 0),
+        wheel_arc(5, 1, 4) && wheel_arc(5, 4, 1) && !wheel_arc(5, 1, 3) && !wheel_arc(5, 2, 4) && !wheel_arc(5, 0, 5),
+        cycle_arc(3, 0, 2) && cycle_arc(3, 2, 0) && cycle_arc(2, 0, 1) && cycle_arc(2, 1, 0) && !cycle_arc(4, 0, 2) && !cycle_arc(1, 0, 0),
+{
+    lemma_wheel_lin(4);
+    lemma_wheel_lin(5);
+    lemma_cyc_lin(1); lemma_cyc_lin(2); lemma_cyc_lin(3); lemma_cyc_lin(4);
+    assert(wheel_arc(4, 0, 3) == wheel_lin(4, 0, 3)); assert(wheel_arc(4, 1, 2) == wheel_lin(4, 1, 2));
+    assert(wheel_arc(4, 2, 3) == wheel_lin(4, 2, 3)); assert(wheel_arc(4, 3, 1) == wheel_lin(4, 3, 1));
+    assert(wheel_arc(4, 1, 3) == wheel_lin(4, 1, 3)); assert(wheel_arc(4, 2, 0) == wheel_lin(4, 2, 0));
+    assert(wheel_arc(4, 1, 1) == wheel_lin(4, 1, 1)); assert(wheel_arc(4, 0, 0) == wheel_lin(4, 0, 0));
+    assert(wheel_arc(5, 1, 4) == wheel_lin(5, 1, 4)); assert(wheel_arc(5, 4, 1) == wheel_lin(5, 4, 1));
+    assert(wheel_arc(5, 1, 3) == wheel_lin(5, 1, 3)); assert(wheel_arc(5, 2, 4) == wheel_lin(5, 2, 4));
+    assert(wheel_arc(5, 0, 5) == wheel_lin(5, 0, 5));
+    assert(cycle_arc(3, 0, 2) == cyc_lin(3, 0, 2)); assert(cycle_arc(3, 2, 0) == cyc_lin(3, 2, 0));
+    assert(cycle_arc(2, 0, 1) == cyc_lin(2, 0, 1)); assert(cycle_arc(2, 1, 0) == cyc_lin(2, 1, 0));
+    assert(cycle_arc(4, 0, 2) == cyc_lin(4, 0, 2)); assert(cycle_arc(1, 0, 0) == cyc_lin(1, 0, 0));
+}
+
 impl EdgeList {
     // OBSERVATION (reported): `u + order - 1` is evaluated in usize; for order > usize::MAX / 2 + 1 it overflows (u = order - 1
     // at the latest; for order == usize::MAX already at u == 1).  The precondition below is the WEAKEST one under which no
     // iteration overflows (u + order <= usize::MAX for every u < order  <=>  2 * order - 1 <= usize::MAX).
     /*@fn impl=EdgeList trait=Cycle name=cycle loopify=BTreeSet wrap=fn:once,chain props=C14,C13
     requires
-        true,
+        order <= usize::MAX / 2 + 1,
     ensures
         order >= 1,
         r.wf(),
@@ -64,14 +122,14 @@ impl EdgeList {
         proof { lemma_cyc_lin(order as int); }
     @loop 1
     invariant
-        2 <= order,
+        2 <= order <= usize::MAX / 2 + 1,
         cyc_lin_ok(order as int),
         forall|p: (usize, usize)| #[trigger] vx_acc@.contains(p) == (p.0 < u && cyc_lin(order as int, p.0 as int, p.1 as int)),
     @loop_start 1
         proof { lemma_cyc_mod(order as int, u as int); }
     @loop 2
     invariant
-        2 <= order,
+        2 <= order <= usize::MAX / 2 + 1,
         u < order,
         it2.iter.obeys_prophetic_iter_laws(),
         it2.iter.decrease() is Some,
@@ -81,5 +139,51 @@ impl EdgeList {
         it2.seq().len() >= 2 ==> it2.seq()[1] == (u, cyc_next(order as int, u as int) as usize),
         forall|p: (usize, usize)| #[trigger] vx_acc@.contains(p) == ((p.0 < u && cyc_lin(order as int, p.0 as int, p.1 as int))
             || (p.0 == u && ((it2.index() >= 1 && p.1 == cyc_prev(order as int, u as int)) || (it2.index() >= 2 && p.1 == cyc_next(order as int, u as int))))),
+    @*/
+
+    /*@fn impl=EdgeList trait=Wheel name=wheel loopify=BTreeSet wrap=fn:once,chain props=C14,C13
+    ensures
+        order >= 4,
+        r.wf(),
+        r.ord() == order,
+        forall|a: int, b: int| #![trigger r.has(a, b)] r.has(a, b) == wheel_arc(order as int, a, b),
+    @closure 1 |v: usize| -> (p: (usize, usize))
+    ensures
+        p == (0usize, v),
+    @closure 3 |v: usize| -> (p: (usize, usize))
+    ensures
+        p == (u, v),
+    @fn_start
+        broadcast use vstd::std_specs::iter::group_iter_axioms;
+        proof { if order >= 4 { lemma_wheel_lin(order as int); } }
+    @loop 1
+    invariant
+        order >= 4,
+        it1.iter.obeys_prophetic_iter_laws(),
+        it1.iter.decrease() is Some,
+        it1.seq().len() <= order - 1,
+        it1.iter.will_return_none() ==> it1.seq().len() == order - 1,
+        forall|j: int| 0 <= j < it1.seq().len() ==> #[trigger] it1.seq()[j] == (0usize, (1 + j) as usize),
+        forall|p: (usize, usize)| #[trigger] vx_acc@.contains(p) == (p.0 == 0 && 1 <= p.1 < 1 + it1.index()),
+    @loop 2
+    invariant
+        order >= 4,
+        wheel_lin_ok(order as int),
+        forall|p: (usize, usize)| #[trigger] vx_acc@.contains(p) == (p.0 < u && wheel_lin(order as int, p.0 as int, p.1 as int)),
+    @loop 3
+    invariant
+        order >= 4,
+        1 <= u < order,
+        last == order - 1,
+        it3.iter.obeys_prophetic_iter_laws(),
+        it3.iter.decrease() is Some,
+        it3.seq().len() <= 3,
+        it3.iter.will_return_none() ==> it3.seq().len() == 3,
+        it3.seq().len() >= 1 ==> it3.seq()[0] == (u, 0usize),
+        it3.seq().len() >= 2 ==> it3.seq()[1] == (u, rim_prev(order as int, u as int) as usize),
+        it3.seq().len() >= 3 ==> it3.seq()[2] == (u, rim_next(order as int, u as int) as usize),
+        forall|p: (usize, usize)| #[trigger] vx_acc@.contains(p) == ((p.0 < u && wheel_lin(order as int, p.0 as int, p.1 as int))
+            || (p.0 == u && ((it3.index() >= 1 && p.1 == 0) || (it3.index() >= 2 && p.1 == rim_prev(order as int, u as int))
+                || (it3.index() >= 3 && p.1 == rim_next(order as int, u as int))))),
     @*/
 }
